@@ -180,6 +180,27 @@ def real_bind_python(pyfunc, npos, kws):
     return srcs, []
 
 
+def real_call_traced(fn, npos, kws):
+    """Call the registered TracedOnnxFunction object itself the way torch's _core.py does
+    (onnx_function(*onnx_args, **onnx_kwargs)).  -> "binding-error" when Python refuses the call before the
+    function body starts (TypeError raised in TracedOnnxFunction.__call__'s own frame), "bound" otherwise
+    (the body then runs on placeholder arguments; whatever it does is irrelevant here)."""
+    args, kwargs = _mk_call(npos, kws)
+    try:
+        fn(*args, **kwargs)
+    except TypeError as ex:
+        tb = ex.__traceback__
+        while tb.tb_next is not None:
+            tb = tb.tb_next
+        code = tb.tb_frame.f_code
+        if code.co_name == "__call__" and code.co_filename.endswith("values.py"):
+            return "binding-error"
+        return "bound"
+    except Exception:  # noqa: BLE001 - the body ran on placeholders
+        return "bound"
+    return "bound"
+
+
 def _c_src(s):
     if s is None:
         return "SDefault"
@@ -305,7 +326,12 @@ def _replay_failure(e, arg, why, npos, kws):
     names = [p.name for p in sig.params]
     pos = [a for a in e["schema"] if not a["kwonly"]]
     if why in ("WRequiredUnbound", "WTooManyPositional", "WUnexpectedKeyword"):
-        return obs is None, ("raises" if obs is None else f"binds {list(zip(names, obs[0]))}")
+        if e["traced"]:
+            # the exporter's path for a trace-only entry: the TracedOnnxFunction object is called directly
+            called = real_call_traced(e["fn"], npos, kws)
+            ok = obs is None and called == "binding-error"
+            return ok, (f"TracedOnnxFunction call: {called}; inspect.signature.bind: {'raises' if obs is None else 'binds'}")
+        return obs is None, ("_construct_named_inputs_and_attrs raises" if obs is None else f"binds {list(zip(names, obs[0]))}")
     if obs is None:
         return False, "raises (expected a binding)"
     srcs, dk = obs
